@@ -237,6 +237,7 @@ func init() {
 	checks["C12"] = &checkDef{
 		run: func(c *Ctx) {
 			runG8(c.Repo, c.Rep)
+			g8PrefixOpaque(c.Repo, c.Rep)
 			g8PluginOrderFixed(c.Repo, c.Rep)
 			// helper names are minted from the plugin's current prefix and the name returned is the one that was tested to be free
 			g7NewName(c.Repo, c.Rep)
